@@ -252,6 +252,9 @@ func ctLoad(fset *token.FileSet) map[string]*ctPkg {
 		if err != nil {
 			die("type-check %s: %v", rel, err)
 		}
+		for _, f := range p.files {
+			ctDesugarSwitches(f)
+		}
 		p.pkg = tp
 		p.name = tp.Name()
 		im.mine[p.path] = tp
@@ -820,7 +823,11 @@ func (t *ctTr) analyse(f *ctFn) bool {
 			if kinds[i] == nil {
 				kinds[i] = &k
 			} else if *kinds[i] != k {
-				kinds[i] = &retKind{param: -1}
+				if !kinds[i].fresh && !k.fresh && kinds[i].param == k.param && k.param >= 0 {
+					kinds[i] = &retKind{param: k.param} // the same parameter, once as the identifier and once through a call
+				} else {
+					kinds[i] = &retKind{param: -1}
+				}
 			}
 		}
 		return true
@@ -905,6 +912,7 @@ type fnTr struct {
 	capVar   map[types.Object]int     // hidden parameters: capacity of a slice parameter
 	branches []ctBranch               // enclosing if-branches (for the aliasing discipline)
 	curEnd   token.Pos                // end of the simple statement being translated
+	builders map[types.Object]*ctBuilder // slices built by append into a prefix of a local array (ctirproto.go)
 }
 
 func (x *fnTr) fail(pos token.Pos, format string, a ...interface{}) { x.t.fail(pos, format, a...) }
@@ -1610,6 +1618,7 @@ func (x *fnTr) call(call *ast.CallExpr, pre *[]string, used bool) []string {
 		}
 		return []string{fmt.Sprintf("(.mk %s %s)", x.expr(call.Args[1], pre), x.zero(sl.Elem(), call.Pos()))}
 	case "append":
+		x.appendGuard(call)
 		a := x.expr(call.Args[0], pre)
 		if call.Ellipsis.IsValid() {
 			return []string{fmt.Sprintf("(.cat %s %s)", a, x.expr(call.Args[1], pre))}
@@ -2540,6 +2549,9 @@ func (x *fnTr) assign(v *ast.AssignStmt, out *[]string) {
 		if x.viewAssign(v, out) {
 			return
 		}
+		if x.builderAssign(v, out) {
+			return
+		}
 		val := x.expr(v.Rhs[0], out)
 		if id, ok := v.Lhs[0].(*ast.Ident); ok && ctIsIntRepr(info.TypeOf(v.Rhs[0])) {
 			if site := x.siteOf2(v); site >= 0 { // a verdict stored in a variable
@@ -2782,7 +2794,9 @@ func ctBuild() string {
 	}
 	var extKeys []string
 	for k := range extTable {
-		extKeys = append(extKeys, k)
+		if !ctExtLate[k] {
+			extKeys = append(extKeys, k)
+		}
 	}
 	sort.Strings(extKeys)
 	for _, k := range extKeys {
